@@ -166,6 +166,7 @@ def cases(draw):
         "schedule": draw(st.lists(st.integers(0, 7), min_size=1, max_size=8)),
         "workers": draw(st.integers(1, 3)),
         "seed": draw(st.integers(0, 999)),
+        "optlib": draw(st.sampled_from(["random", "random", "random", "cmaes"])),
     }
 
 
@@ -190,6 +191,14 @@ def run_case(spec, sub=None):
     viol = []
     _state["fail"] = frozenset(spec["fail"])
     _state["calls"] = []
+    # optlibs other than 'random' take no seed and draw from the global
+    # generators: pin those from the spec so the case stays replayable
+    import random
+
+    import numpy as np
+
+    random.seed(spec["seed"])
+    np.random.seed(spec["seed"])
 
     # a size every unsliced tree exceeds or not - target relative to greedy
     base = ctg.array_contract_tree(inputs, output, sizes, optimize="greedy")
@@ -232,7 +241,8 @@ def run_case(spec, sub=None):
             opt = ctg.HyperOptimizer(
                 methods=list(spec["methods"]), minimize=spec["minimize"],
                 max_repeats=spec["max_repeats"], parallel=parallel,
-                optlib="random", on_trial_error="ignore", seed=spec["seed"],
+                optlib=spec.get("optlib", "random"), on_trial_error="ignore",
+                **({"seed": spec["seed"]} if spec.get("optlib", "random") == "random" else {}),
                 **kw,
             )
             try:
@@ -247,7 +257,7 @@ def run_case(spec, sub=None):
     finally:
         if tp is not None:
             tp.shutdown(wait=True)
-    cls = [f"exec={spec['executor']}", f"post={post}", f"minimize={spec['minimize']}"]
+    cls = [f"exec={spec['executor']}", f"post={post}", f"minimize={spec['minimize']}", f"optlib={spec.get('optlib', 'random')}"]
     nfinite = 0
     if not ok:
         # accepted only if every trial failed
